@@ -49,6 +49,7 @@ import DSymVerif.Proofs.Delaney3dBranchFar
 import DSymVerif.Proofs.Delaney3dReindex
 import DSymVerif.Proofs.Delaney3dPipelineSize
 import DSymVerif.Proofs.ToroidalCover
+import DSymVerif.Proofs.Delaney3dNoPanic
 import DSymVerif.Props.C05
 import DSymVerif.Props.C09
 import DSymVerif.Props.C11
@@ -878,6 +879,131 @@ def SubgroupFacts (s cov : DSymData) : Prop :=
 theorem ptc_certificate (s cov : DSymData) (hs : ValidTables s) (hsz : 1 ≤ s.size)
     (h : pseudoToroidalCover s = .ok (some cov)) : CoverFacts s cov ∧ SubgroupFacts s cov :=
   ⟨ptc_result_is_cover s cov hs hsz h, ptc_selected_subgroup_is_Z3_abelianised s cov hs hsz h⟩
+
+/-! ### 7b. totality: the model of `pseudo_toroidal_cover` panics only on its three assertions -/
+
+/-- the assertion loop on the branching numbers never runs out of fuel on a valid symbol: it
+    answers or it is the assertion that fails -/
+theorem crystLoop_ne_err (s : DSymData) (hs : ValidSym s) (i : Nat) (hi : i + 1 ≤ s.dim) :
+    ∀ l : List Nat, (∀ d ∈ l, 1 ≤ d ∧ d ≤ s.size) → crystLoop s i l ≠ .err
+  | [], _ => by unfold crystLoop; intro h; cases h
+  | d :: rest, h => by
+    have hd := h d (List.mem_cons_self ..)
+    obtain ⟨b, hb⟩ := hs.vPartial_some (show i ≤ s.dim by omega) hi hd.1 hd.2
+    unfold crystLoop
+    rw [hb]
+    simp only
+    split
+    · exact crystLoop_ne_err s hs i hi rest (fun d' hd' => h d' (List.mem_cons_of_mem _ hd'))
+    · intro h'; cases h'
+
+theorem crystCheck_ne_err (s : DSymData) (hs : ValidSym s) :
+    ∀ l : List Nat, (∀ i ∈ l, i + 1 ≤ s.dim) → crystCheck s l ≠ .err
+  | [], _ => by unfold crystCheck; intro h; cases h
+  | i :: rest, h => by
+    have hi := h i (List.mem_cons_self ..)
+    have hne := crystLoop_ne_err s hs i hi (s.view.orbitReps2d i (i + 1))
+      (fun d hd => (D2.orbitReps2d_ok hs.set (show i ≤ s.dim by omega) hi).range d hd)
+    unfold crystCheck
+    cases hc : crystLoop s i (s.view.orbitReps2d i (i + 1)) with
+    | ok u =>
+      simp only
+      exact crystCheck_ne_err s hs rest (fun i' hi' => h i' (List.mem_cons_of_mem _ hi'))
+    | err => exact absurd hc hne
+    | panic => simp only; intro h'; cases h'
+
+/-- **pseudo_toroidal_cover_total.**  On every valid D-symbol with at least one chamber the model
+    of `pseudo_toroidal_cover` — `oriented_cover`, `fundamental_group`, `coset_tables`,
+    `core_table`, `core_type`, `flattens_all`/`degree`, `intersection_table`, the candidate map,
+    `stabilizer`, `abelian_invariants`, `cover_for_table`, all of them Lean models — **returns**
+    (`Some(cov)` or `None`) whenever its three documented assertions hold: dimension 3, complete,
+    every adjacent branching number `≤ 6` and `≠ 5`.  It never answers `.err` (no fuel of any
+    stage runs out), and it panics ONLY if one of the three assertions fails: none of the
+    `unwrap`s, map look-ups, the `panic!()` arm of `core_type_by_size`, the unbounded iterator of
+    `degree` or the table constructions can fail.  (Assembly of C05 `oriented_cover_oriented`,
+    C09 `fg_total`, C12 `search_never_panics` with `searchFuel`, C13 `core_total`,
+    `intersection_total`, `stabilizer_total`, C14 `abelian_invariants_correct`, and §3–§5.) -/
+theorem pseudo_toroidal_cover_total (s : DSymData) (hs : ValidSym s) (hsz : 1 ≤ s.size) :
+    (s.dim = 3 → s.isCompletePartial = true → crystCheck s (List.range s.dim) = .ok () →
+      ∃ r, pseudoToroidalCover s = .ok r) ∧
+    pseudoToroidalCover s ≠ .err ∧
+    (pseudoToroidalCover s = .panic →
+      s.dim ≠ 3 ∨ s.isCompletePartial = false ∨ crystCheck s (List.range s.dim) = .panic) := by
+  have main : s.dim = 3 → s.isCompletePartial = true → crystCheck s (List.range s.dim) = .ok () →
+      ∃ r, pseudoToroidalCover s = .ok r := by
+    intro hd3 hcompl hcr
+    have hdim : 1 ≤ s.dim := by omega
+    obtain ⟨oc, hoc, _, hocdim, hocsize⟩ := C05.oriented_cover_oriented s hs.toValidTables hsz hdim
+    have hsoc := orientedCover_validSym hs hsz hdim hoc
+    have hocsz : 1 ≤ oc.size := by rw [hocsize]; split <;> omega
+    have hocd : 1 ≤ oc.dim := by rw [hocdim]; exact hdim
+    obtain ⟨fg, hfg⟩ := (C09.fg_total oc hsoc).1
+    have hG := groupOK_of_fundamentalGroup hfg (fuelOK fg)
+    obtain ⟨cands, hcands, hn⟩ := constructCandidates_total fg hG
+      (fun c name h => coreType_in_pointGroups _ c name h) coreTypeBySize_domain.1
+      coreTypeBySize_domain.2.1 coreTypeBySize_domain.2.2.2
+      coreType_names_in_pointGroups.2.2.2.1 coreType_names_in_pointGroups.2.2.2.2
+    have hvalid := constructCandidates_valid fg hG cands hcands
+    obtain ⟨r, hr⟩ := groupLoop_total (n := fg.genToEdge.length) (rels := fg.relators) hn hvalid
+      pointGroups (fun x hx => hx)
+    have hne : ¬ s.dim ≠ 3 := not_not.mpr hd3
+    cases r with
+    | none =>
+      refine ⟨none, ?_⟩
+      unfold pseudoToroidalCover
+      rw [if_neg hne, hcompl]
+      simp only [Bool.not_true, Bool.false_eq_true, if_false, hcr, hoc, hfg, hcands, hr]
+    | some t =>
+      obtain ⟨name, ts, _, hget, hmem, _⟩ := groupLoop_some _ _ cands pointGroups t hr
+      obtain ⟨e, he, hets⟩ := candGet_mem hget
+      have hvt := hvalid e he t (by rw [hets]; exact hmem)
+      have hV : CosetP.Valid t fg.nrGenerators fg.relators [] := CosetP.valid_of_validTable hvt
+      obtain ⟨c, hc⟩ := coverForTable_total hsoc hocsz hocd hfg hV
+      have hc' : Covers.coverForTable oc (tableData (tbl fg.genToEdge.length t)) fg.edgeToWord = .ok c := hc
+      refine ⟨some c, ?_⟩
+      unfold pseudoToroidalCover
+      rw [if_neg hne, hcompl]
+      simp only [Bool.not_true, Bool.false_eq_true, if_false, hcr, hoc, hfg, hcands, hr, hc']
+  have hcrne : s.dim = 3 → crystCheck s (List.range s.dim) ≠ .err := by
+    intro _
+    exact crystCheck_ne_err s hs _ (fun i hi => by have := List.mem_range.mp hi; omega)
+  refine ⟨main, ?_, ?_⟩
+  · intro herr
+    by_cases hd3 : s.dim = 3
+    · cases hcompl : s.isCompletePartial with
+      | false =>
+        unfold pseudoToroidalCover at herr
+        rw [if_neg (not_not.mpr hd3), hcompl] at herr
+        simp at herr
+      | true =>
+        cases hcr : crystCheck s (List.range s.dim) with
+        | ok u =>
+          obtain ⟨r, hr⟩ := main hd3 hcompl hcr
+          rw [hr] at herr
+          cases herr
+        | err => exact hcrne hd3 hcr
+        | panic =>
+          unfold pseudoToroidalCover at herr
+          rw [if_neg (not_not.mpr hd3), hcompl] at herr
+          simp [hcr] at herr
+    · unfold pseudoToroidalCover at herr
+      rw [if_pos hd3] at herr
+      cases herr
+  · intro hp
+    by_cases hd3 : s.dim = 3
+    · right
+      cases hcompl : s.isCompletePartial with
+      | false => exact Or.inl rfl
+      | true =>
+        right
+        cases hcr : crystCheck s (List.range s.dim) with
+        | ok u =>
+          obtain ⟨r, hr⟩ := main hd3 hcompl hcr
+          rw [hr] at hp
+          cases hp
+        | err => exact absurd hcr (hcrne hd3)
+        | panic => rfl
+    · exact Or.inl hd3
 
 /-! ### 8. the 2D sentence: `delaney2d::toroidal_cover`
 
